@@ -170,6 +170,8 @@ class Check:
             if ALT:
                 os.makedirs(COQ, exist_ok=True)
                 rc, out = sh(["rsync", "-a", "--delete", "--exclude", "gen/", "--exclude", "Makefile*", "--exclude", ".Makefile*",
+                              "--exclude", "*.vo", "--exclude", "*.vos", "--exclude", "*.vok", "--exclude", "*.glob", "--exclude", ".*.aux",
+                              "--exclude", ".lia.cache",
                               os.path.join(VERIF, "coq") + "/", COQ + "/"])
                 if rc:
                     raise RuntimeError("rsync failed: " + out[-400:])
@@ -241,6 +243,12 @@ class Check:
         self.proof["discharged"] = count_obligations([f for f in built if not (m and f == m.group(1))])[0]
 
     def _build_driver(self):
+        # extraction writes model.ml as a side effect that make does not track: always redo it
+        for ext in (".vo", ".vos", ".vok", ".glob"):
+            try:
+                os.remove(os.path.join(COQ, "Run", f"Extract_{self.prop}{ext}"))
+            except FileNotFoundError:
+                pass
         rc, out = self._make([f"Run/Extract_{self.prop}.vo"])
         d = os.path.normpath(os.path.join(COQ, "..", "_build", "ocaml", self.prop))
         if rc:
@@ -368,8 +376,9 @@ class Check:
             "wall_s": round(time.time() - self.t0, 2),
             "violations": len(self.violations),
         }
-        os.makedirs(os.path.join(VERIF, "evidence"), exist_ok=True)
-        with open(os.path.join(VERIF, "evidence", f"{self.prop}.json"), "w") as fh:
+        evdir = os.path.join(VERIF, "evidence") if not ALT else os.path.normpath(os.path.join(COQ, "..", "evidence"))
+        os.makedirs(evdir, exist_ok=True)
+        with open(os.path.join(evdir, f"{self.prop}.json"), "w") as fh:
             json.dump(ev, fh, indent=1, default=str)
         print(f"{self.prop} [{self.tier}] obligations {self.proof['discharged']}/{self.proof['obligations']} "
               f"evaluations {self.cov['evaluations']} distinct_nontrivial {self.cov['distinct_nontrivial']} "
